@@ -96,8 +96,17 @@ class EffectEngine:
                 out.add("send:?")
             return out
         if "HashMap" in d and "FlowSlot" in path:
-            if name in ("insert", "remove", "drain", "clear", "retain", "get_mut", "get", "contains_key", "values", "values_mut", "iter", "iter_mut", "entry"):
+            if name == "entry":
+                out.add("map:get_mut")        # a lookup; what is done with the entry is classified below
+            elif name in ("insert", "remove", "drain", "clear", "retain", "get_mut", "get", "contains_key", "values", "values_mut", "iter", "iter_mut"):
                 out.add("map:" + name)
+            return out
+        if "FlowSlot" in path and ("OccupiedEntry" in d or "VacantEntry" in d or "hash_map::Entry" in d or "::Entry<" in d):
+            # entry API on the flow table = the same table operations
+            if name in ("remove", "remove_entry"):
+                out.add("map:remove")
+            elif name in ("insert", "insert_entry", "or_insert", "or_insert_with", "or_insert_with_key", "or_default"):
+                out.add("map:insert")
             return out
         a = atomic_call(t)
         if a and t["args"]:
@@ -165,6 +174,8 @@ class EffectEngine:
             tag = FACT_ADTS.get(g.adt)
             if tag:
                 return "%s:%s" % (tag, v)
+            if g.adt and g.adt.endswith("::Entry") and any(x.kind == "call" and x[6] == "entry" and "FlowSlot" in x[2] for x in walk(g.pred)):
+                return "slot:%s" % ("absent" if v == "Vacant" else "present")
             if g.adt and g.adt.endswith("option::Option"):
                 p = g.pred
                 calls = [x for x in walk(p) if x.kind == "call"]
